@@ -252,7 +252,7 @@ func vfC08Handshake(res *vfResult, c vfC08Case, v vfVariant) {
 	if len(b) == 0 {
 		res.Count("hs_injection_point_not_reached", 1)
 	}
-	mustComplete := len(b) > 0 && classes["plaintext"] == 0 && classes["replay"] == 0
+	mustComplete := len(b) > 0 && classes["plaintext"] == 0 && classes["plaintext-nonhandshake"] == 0 && classes["replay"] == 0
 	completed := cerr == nil && serr == nil
 	state := fmt.Sprintf("%s/%s/k%d", v.Name, c.Target, c.K)
 	if len(b) > 0 {
@@ -391,6 +391,10 @@ func vfC08Established(res *vfResult, c vfC08Case, v vfVariant) {
 			b = vfGenRaw(r, nb)
 		case "recgrammar":
 			b = vfGenRecordGrammar(r, nb, vfCommon(target.Conn).LocalConnectionID(), uint64(r.IntN(1000)), vfThorough())
+			// on a protected association also the well-formed unprotected ones: a fatal alert, application data
+			b = append(b,
+				vfHostile{Data: vfLegacyRecord(21, 0xfefd, 0, 7901, nil, -1, []byte{2, 40}), Class: "?", Note: "epoch0-fatal-alert"},
+				vfHostile{Data: vfLegacyRecord(23, 0xfefd, 0, 7902, nil, -1, []byte("epoch-0 application data")), Class: "?", Note: "epoch0-appdata"})
 		case "mutate":
 			b = vfGenMutateGenuine(r, nb, genuine)
 		case "ccs-sweep":
